@@ -14,7 +14,7 @@
 EXTENDS Integers, Sequences, FiniteSets, TLC
 Bad == 99
 NoFault == [site |-> "none", occ |-> 0, exc |-> ""]
-Deciding == {"validator", "dflt", "getter", "setter", "item", "factory", "cpgetter_read", "drdflt", "pvalidator"}
+Deciding == {"validator", "dflt", "getter", "setter", "item", "kitem", "vitem", "factory", "cpgetter_read", "drdflt", "pvalidator"}
 HandlerSites == {"hstatic", "hdyn", "hobs"}
 InsSorted(q, v) == IF \E k \in 1..Len(q) : q[k] = v THEN q
                    ELSE SelectSeq(q, LAMBDA x : x < v) \o <<v>> \o SelectSeq(q, LAMBDA x : x > v)
@@ -23,6 +23,21 @@ InsAll(q, xs) == IF xs = <<>> THEN q ELSE InsAll(InsSorted(q, Head(xs)), Tail(xs
 DelAll(q, xs) == SelectSeq(q, LAMBDA x : \A k \in 1..Len(xs) : xs[k] # x)
 SymDiff(q, xs) == InsAll(DelAll(q, xs), SelectSeq(xs, LAMBDA x : \A k \in 1..Len(q) : q[k] # x))
 
+\* Dict(K, V) operations: the pairs are validated in order, key then value, before anything is stored.  ks: the keys, a: the
+\* value given to each of them.  What stops the scan first decides the outcome: the occ-th key validation failing (kitem),
+\* a refused key, the occ-th value validation failing (vitem), a refused value
+RECURSIVE DScan(_, _, _, _)
+DScan(ks, i, a, f) ==
+  IF i > Len(ks) THEN ""
+  ELSE IF f.site = "kitem" /\ f.occ = i THEN "fault"
+  ELSE IF ks[i] = Bad THEN "TraitError"
+  ELSE IF f.site = "vitem" /\ f.occ = i THEN "fault"
+  ELSE IF a = Bad THEN "TraitError"
+  ELSE DScan(ks, i + 1, a, f)
+PutSorted(d, k, v) == LET rest == SelectSeq(d, LAMBDA p : p[1] # k) IN
+                      SelectSeq(rest, LAMBDA p : p[1] < k) \o <<<<k, v>>>> \o SelectSeq(rest, LAMBDA p : p[1] > k)
+RECURSIVE PutAllSorted(_, _, _)
+PutAllSorted(d, ks, v) == IF ks = <<>> THEN d ELSE PutAllSorted(PutSorted(d, Head(ks), v), Tail(ks), v)
 \* st = [v, vq, dflt ("unset" as -1), p, lst, sset, sup (0 none | chain length), ea (likewise, for the compound trait),
 \*       dr (-1: no value cached), start (-1: default not yet computed), sva, svb (the two synchronised attributes)]
 \* result: [st, exc ("" | "fault" = the injected class or TraitError | "TraitError"), handlers : set of handler sites called]
@@ -59,6 +74,10 @@ Apply(op, st, a, xs, f) ==
          IF Hit(f, "item", Len(new)) THEN Res(st, "fault", {})
          ELSE IF \E k \in 1..Len(new) : new[k] = Bad THEN Res(st, "TraitError", {})
          ELSE Res([st EXCEPT !.sset = SymDiff(@, xs)], "", {})
+    [] op \in {"dct_update", "dct_ior", "dct_setitem"} ->      \* d.update({k: a for k in xs}) / d |= {...} / d[xs[1]] = a
+         LET ks == IF op = "dct_setitem" THEN <<xs[1]>> ELSE xs
+             w  == DScan(ks, 1, a, f)
+         IN IF w # "" THEN Res(st, w, {}) ELSE Res([st EXCEPT !.dct = PutAllSorted(@, ks, a)], "", {})
     [] op = "sup_assign" ->            \* Supports(Target): a chain of a adapter factories (a = 0: provides already)
          IF Hit(f, "factory", a) THEN Res(st, "fault", {}) ELSE Res([st EXCEPT !.sup = a], "", {})
     \* ea = Either(Instance(Target, adapt="yes"), Instance(Plain)): a = 0 a Target, a = 1 an object that is a Plain AND adapts
